@@ -50,17 +50,22 @@ def short(s, n=150):
 def main():
     sens = json.load(open(os.path.join(VERIF, "sensitivity.json")))
     rows = {r["id"]: r for r in sens["rows"]}
-    print("| planted change (mine) | property | expected | quick check | what it reports | other property's quick check |")
-    print("|---|---|---|---|---|---|")
+    rows2 = {}
+    p2 = os.path.join(VERIF, "sensitivity_seed2.json")
+    if os.path.exists(p2):
+        rows2 = {r["id"]: r for r in json.load(open(p2))["rows"]}
+    print("| planted change (mine) | property | expected | quick check | what it reports | other property's quick check | quick check, VERIF_SEED=2 |")
+    print("|---|---|---|---|---|---|---|")
     for rid, r in rows.items():
         if r["origin"].startswith("planted"):
             res = r["result"]
             cl = ", ".join(res["classes"]) or ("uncontrolled-source (cross-process)" if res["exit"] == 1 else "–")
-            print("| `%s` | %s | %s | exit %d | %s | exit %d |" % (
-                rid, r["property"], r["expect"], res["exit"], cl, r["other_property_quick"]["exit"]))
+            s2 = ("exit %d" % rows2[rid]["result"]["exit"]) if rid in rows2 else "–"
+            print("| `%s` | %s | %s | exit %d | %s | exit %d | %s |" % (
+                rid, r["property"], r["expect"], res["exit"], cl, r["other_property_quick"]["exit"], s2))
     print()
-    print("| seeded change (independent sub-agent) | property | needs, in the agent's words | when it arrived | now (quick) | reported as |")
-    print("|---|---|---|---|---|---|")
+    print("| seeded change (independent sub-agent) | property | needs, in the agent's words | when it arrived | now (quick) | reported as | now, VERIF_SEED=2 |")
+    print("|---|---|---|---|---|---|---|")
     for d in sorted(os.listdir(os.path.join(VERIF, "seeded"))):
         m = json.load(open(os.path.join(VERIF, "seeded", d, "meta.json")))
         r = rows.get(d)
@@ -68,7 +73,8 @@ def main():
         classes = ", ".join(r["result"]["classes"]) if r else ""
         if r and not classes and r["result"]["exit"] == 1:
             classes = "first-call-in-process-differs"
-        print("| `%s` | %s | %s | %s | %s | %s |" % (d, m["property"], short(m.get("needs_to_manifest")), FIRST.get(d, "caught"), now, classes))
+        s2 = ("exit %d" % rows2[d]["result"]["exit"]) if d in rows2 else "–"
+        print("| `%s` | %s | %s | %s | %s | %s | %s |" % (d, m["property"], short(m.get("needs_to_manifest")), FIRST.get(d, "caught"), now, classes, s2))
 
 
 if __name__ == "__main__":
